@@ -83,7 +83,10 @@ def history(sh: Shard, seed, idx):
                 req = SB.request(spa.get_and_increment_sequence_counter(False), st, ln, parms=spa.sendparms)
                 spa.struct.retry_request(spa, req, spa.sendparms)
                 s.run_until(lambda: req not in spa._receive_handlers, 60)
-                end = min(st + (-(-ln // 39)) * 39, 1024)
+                from vlib.libconst import segment_size
+
+                SEG = segment_size()
+                end = min(st + (-(-ln // SEG)) * SEG, 1024)
                 ref = ref[:st] + rig.sim_block[st:end] + ref[end:]
                 ops.append(("REFRESH", st, ln))
                 sh.count("threaded_refresh")
